@@ -175,7 +175,7 @@ pub mod ax {
     pub broadcast proof fn b_into_ref_ref<'a>(n: BigDecimalRef<'a>)
         ensures #[trigger] into_ref(n) == n, into_ok(n)
     { broadcast use {axiom_ref_into_self, axiom_ref_into_self_obeys}; }
-    pub broadcast group val_algebra { crate::vs::b_val_at_self, crate::vs::b_val_at_zero, crate::vs::b_val_at_neg, b_into_ref_dec, b_into_ref_int, b_into_ref_ref }
+    pub broadcast group val_algebra { crate::vs::b_val_at_self, crate::vs::b_val_at_zero, crate::vs::b_val_at_neg, crate::vs::b_mul_cases, crate::vs::b_one_scale, b_into_ref_dec, b_into_ref_int, b_into_ref_ref }
 /// std's reflexive `impl<T> From<T> for T` is the identity (assumed)
 #[verifier::external_body]
 pub broadcast proof fn axiom_ref_into_self<'a>(x: BigDecimalRef<'a>)
